@@ -163,7 +163,7 @@ func (s *treeState) runOps(ops []op, universe []string, build bool, base int, pr
 		opClass, f := s.applyOp(o, universe, build)
 		if f != nil {
 			key := prefix + opClass + "/" + f.Class
-			if s.start == "foreign" {
+			if s.start == "foreign" || s.start == "generated" {
 				key += "/start=foreign" // different input domain: tree shapes pdfcpu did not build itself
 			}
 			return &result{start: s.start, Key: key, What: fmt.Sprintf("after op %d %s(%q): %s", base+i, o.Kind, o.K, f.What), OpIndex: base + i}
